@@ -96,7 +96,8 @@ def pipeline(tid, spec, gd, rng, events):
     # two models from the SAME loaded matrices (as in a temperature / energy scan): both must be right
     for pass_no in (0, 1):
         T = rng.choice([200.0, 273.0, 300.0, 400.0])
-        kk = np.array([rng.randint(0, 6) for _ in range(n)])
+        # first model: gentle landscape; second: steep steps between neighbours (walls / plateaus, still far below the 500 kJ/mol cap)
+        kk = np.array([rng.randint(0, 6) if pass_no == 0 else rng.choice([0, 1, 2, 17, 30, 40]) for _ in range(n)])
         # the second model has energies with a large common offset (absolute force-field / QM energies): only differences matter
         offset = 0.0 if pass_no == 0 else rng.choice([-25000.0, -6000.0, 4000.0, 30000.0])
         E = kk * (2 * kB * N_A * T * math.log(2) / 1000.0) + offset
@@ -121,6 +122,11 @@ def pipeline(tid, spec, gd, rng, events):
             events.append(rate)
             return
         events.append(rate)
+        if pass_no == 0:
+            Q_gentle, kk_gentle = Q, kk
+    # the spectral clauses are checked on the gentle landscape: with steps of 2^40 between neighbours ARPACK (tol 1e-12) does not
+    # converge at all (ArpackNoConvergence) - a property of the solver on such ill-conditioned matrices, not of the pipeline
+    Q, kk = Q_gentle, kk_gentle
     # Decomposition only for n >= 48: on tiny matrices (k = 6 eigenvalues requested from a 21 x 21 matrix, where ARPACK's
     # Krylov space is nearly the full space) scipy's eigs was observed to MISS the zero eigenvalue depending on ARPACK's
     # internal random start vector (not reproducible, history dependent) - see DESIGN 11.6
